@@ -127,7 +127,8 @@ def s3(ck, an):
              "Rebalancing.time is the time it was given", f"Rebalancing.time = {v}", construct="self.time = time or datetime.now()")
     # now() returns the clock set by notify
     fn = an.fa("TradingEnv.now")
-    rets = [fn.sym.canon(r.value) for r in returns_in(fn)]
+    fv_ = function_value(fn)            # returns folded into one conditional value: `if not rt: return a` / `return b` is `b if rt else a`
+    rets = [fv_.key()] if fv_ is not None else [fn.sym.canon(r.value) for r in returns_in(fn)]
     ck.check(rets == [specv(fn, "self._transmitter._now() if self._real_time else self._now").key()], "ARGFLOW", "S3.now-is-the-clock", fn.f.short, fn.f.loc, "now() is the event clock (simulated mode)",
              f"now() returns {rets}", construct="return self._now")
 
